@@ -5,6 +5,7 @@ import Splipy.Lemmas.C18IfemB
 import Splipy.Lemmas.C18Faces
 import Splipy.Lemmas.C18FacesB
 import Splipy.Lemmas.C18FacesC
+import Splipy.Lemmas.C18FacesD
 import Splipy.Lemmas.C18NumberingE
 import Splipy.Lemmas.C18Example
 import Splipy.Lemmas.C18Star
@@ -243,6 +244,32 @@ example : wellOrderedB (plansOfObjs C18W.edgeContact) = true ∧ noJunkB (plansO
     wellOrderedB (plansOfObjs C18W.faceContact) = true ∧ noJunkB (plansOfObjs C18W.faceContact) = true :=
   C18W.guards_witnesses
 
+/-- **What the driver runs is what the theorems are about, under a decidable check.**
+    `sm.generateCpNumbers` (the model of `SplineModel.generate_cp_numbers`, run by the driver on the
+    catalogue) is `numberPlans` applied to the plans read off the catalogue (`sm.plans`).  If these
+    agree with the plans of the history (`plansAgreeB sm.plans (plansOfObjs objs)`, a `Bool` the
+    driver evaluates and the harness requires to be `true` on EVERY generated model — together with
+    the comparison of the real nodes' ownership and orientations against `plansOfObjs`), then
+    `generate_cp_numbers()` returns exactly what `numberPlans (plansOfObjs objs)` returns, the
+    function of `C18_numbering_star` / `C18_numbering_partition` / `C18_numbering_counterexample`.
+    (A proof that the check always succeeds is `C18_plans_of_catalogue_partial` + the open
+    invariant `PlansInv`.) -/
+theorem C18_generate_eq_plans (sm : SplineModel) (objs : List Obj)
+    (h : plansAgreeB sm.plans (plansOfObjs objs) = true) :
+    sm.plans = plansOfObjs objs ∧
+    ∀ r, sm.generateCpNumbers = .ok r → numberPlans (plansOfObjs objs) = .ok (r.cp, r.ncps) := by
+  have hp := plans_eq_of_agree h
+  refine ⟨hp, fun r hr => ?_⟩
+  unfold SplineModel.generateCpNumbers at hr
+  have hp' : sm.tops.map (planOf sm (allViews sm)) = plansOfObjs objs := hp
+  simp only [hp', bind, Except.bind, pure, Except.pure] at hr
+  split at hr
+  · cases hr
+  · rename_i v hv
+    simp only [Except.ok.injEq] at hr
+    subst hr
+    exact hv
+
 /-- **The catalogue's numbering is the history's numbering, under the ownership invariant.**
     `PlansInv sm objs` states precisely what the numbering needs from the catalogue state `sm`
     after the patches `objs` (top-dimensional, each a new top node) were added: one top node per
@@ -254,7 +281,20 @@ example : wellOrderedB (plansOfObjs C18W.edgeContact) = true ∧ noJunkB (plansO
     catalogue returns exactly what `numberPlans (plansOfObjs objs)` returns — the function of
     `C18_numbering_partial` / `C18_numbering_counterexample`.
 
-    PARTIAL: `PlansInv` itself is not proved for the catalogue of a history.  Its node-identity part
+    PARTIAL: `PlansInv` itself is not proved for the catalogue of a history (its only proved
+    instance is the empty history).  The precise obstacle: (i) C17's state relations `Ext` (old
+    nodes keep `obj` and `lower`) and `Inv` do not mention `TNode.owner`; `Model.newNode` rewrites
+    owners of EXISTING nodes through `transferOwnership` (recursive over lower links), and
+    `Model.lookup` threads the state through two nested `foldlM`s (dimensions × sections), so the
+    frame fact "a node that has an owner keeps it; the owner-less facets of a new node get that
+    node" has to be carried through `lookupPoint` / `resolve` / `addNode` / `newNode` /
+    `transferOwnership` by the same induction as C17's `lookup_sound` — C17's theorems
+    (`C17_catalogue_step`, `C17_catalogue_invariant`) cannot be used as black boxes for it;
+    (ii) `PlansInv` needs the ORDER of `top_nodes()` (= creation order, which makes owners earlier
+    than readers), while C17's `nodesOf_spec` gives only the set — an invariant on the order of
+    `Level.keys` is missing; (iii) `face_view` needs the `assign_cp_numbers` recursion
+    (`assignViews`: the last hand-down wins).  Until then the link is the decidable check of
+    `C18_generate_eq_plans`, evaluated on every generated model.  Its node-identity part
     follows from C17 (`C17_catalogue_counts`: a lower link IS the node `F` iff the section is `≈` to
     `F`'s object; `nodes(P)` duplicate free); its OWNERSHIP part (owner = creator, object of the
     first occurrence, creation order of the top nodes) is not tracked by C17's invariant `Inv` and
@@ -450,7 +490,8 @@ theorem C18_openfoam_order (faces : List Face) :
 /-- **Cells per face, and the rows of the OpenFOAM files, for models of any size.**
     Whenever `SplineModel.faces()` returns (any number of patches, any cell counts — induction over
     the top nodes), every face record has either two cells with `owner < neighbour` or one cell
-    (`neighbour = -1`).  If moreover the faces without a name are exactly the faces with a
+    (`neighbour = -1`) — this first clause only re-reads the final `assert` of `faces()`; that the
+    `assert` does NOT fire is `C18_faces_assembly_partial`.  If moreover the faces without a name are exactly the faces with a
     neighbour (every boundary face named — what `OpenFOAM.write` presupposes: it takes
     `name is None` for "internal"), then the rows the writer emits are
     `two-cell faces ++ one-cell faces`: the first `nInternalFaces` rows are the faces with two
@@ -473,6 +514,53 @@ theorem C18_openfoam_cells_partial (ktol : ℚ) (r : Numbered) (fs : List Face) 
         (fun a b => a.owner < b.owner ∨ (a.owner = b.owner ∧ a.neighbor ≤ b.neighbor)) ∧
       (o.faces.drop o.ninternal).Pairwise (fun a b => a.name = b.name → a.owner ≤ b.owner)) :=
   ⟨faces_two_or_one ktol r fs h, fun hnamed => ofoam_blocks fs hnamed (faces_two_or_one ktol r fs h)⟩
+
+/-- **Assembly of `faces()` over the patches: the final `assert` does not fire, and every listed
+    face is adjacent to the cells it names** — under the decidable guard `facesGuardB` (defined next
+    to the algorithm; the harness evaluates it on every generated trilinear model and compares it
+    with the same certificate recomputed on the real nodes).  The guard says: volumes; every patch
+    has cells in each direction; everything before the final `assert` can be formed
+    (`facesTagged`: orders, shapes, `nhigher ∈ {1,2}`, the neighbour exists, `Orientation.compute`
+    succeeds, sizes fit); every interface a node lists leads to a LATER top node; and the owner cell
+    — and the neighbour cell found through `Orientation.compute(bdnode.obj, nb_obj).map_array` —
+    of every listed face has the face's four vertex numbers among its eight corner numbers.
+    With the cell numbers of `generate_cell_numbers()` (`CellsOK`; `cellsOK_generate`), for models
+    with ANY number of patches and cells:
+    * `faces()` returns (`r.faces ktol = .ok fs`), `fs` being the concatenation over the top nodes
+      of their lists; for every top node `facesOf` returns its `facesTagged` list — the
+      `assert ((owner < neighbor) | (neighbor == -1)).all()` holds, PROVED from: internal faces
+      have consecutive cells of one patch; the cell numbers of an earlier top node are below those
+      of a later one; boundary faces have `neighbor = -1`;
+    * every listed face: its owner cell (of the listing node) contains its four vertices; an
+      internal face has a second cell of the same patch containing them, `owner < neighbour`; a
+      boundary face has `neighbor = -1`; an interface face has as neighbour a cell of the LATER
+      top node `nb` that contains its four vertices (the geometrically adjacent cell — what a
+      wrong interface orientation breaks), `owner < neighbour`;
+    * `cellHas` means what it says (`cellHas_spec`).
+
+    PARTIAL: the adjacency clauses are the guard's certificate (validated per generated model, not
+    derived from the catalogue invariant: that needs the numbering to be transported by the INVERSE
+    of the orientation `faces()` recomputes, i.e. uniqueness of the orientation of an embedded face
+    net); that every geometric cell face of a multi-patch model is listed exactly once is proved
+    for one structured patch (`C18_faces_partial`) and checked by the oracle otherwise. -/
+theorem C18_faces_assembly_partial (ktol : ℚ) (r : Numbered) (hc : CellsOK ktol r)
+    (hg : r.facesGuardB ktol = true) :
+    (∃ fs, r.faces ktol = .ok fs ∧
+      fs = (List.range r.tops.length).flatMap (fun k => ((r.facesTagged ktol k).toOption.getD []).map (·.1))) ∧
+    (∀ k, k < r.tops.length → ∃ l, r.facesTagged ktol k = .ok l ∧ r.facesOf ktol k = .ok (l.map (·.1)) ∧
+      ∀ fk ∈ l, r.cellHas k fk.1.owner fk.1.nodes = true ∧
+        (fk.2 = FaceKind.internal → r.cellHas k fk.1.neighbor fk.1.nodes = true ∧ fk.1.owner < fk.1.neighbor) ∧
+        (fk.2 = FaceKind.boundary → fk.1.neighbor = -1) ∧
+        (∀ nb, fk.2 = FaceKind.iface nb → k < nb ∧ nb < r.tops.length ∧
+          r.cellHas nb fk.1.neighbor fk.1.nodes = true ∧ fk.1.owner < fk.1.neighbor)) ∧
+    (∀ pos c nodes, r.cellHas pos c nodes = true →
+      c ∈ (r.cells.getD pos default).data.toList ∧
+      ∃ q, q < (r.cells.getD pos default).data.size ∧ (r.cells.getD pos default).data.getD q default = c ∧
+        ∀ v ∈ nodes, v ∈ cellCorners (r.cp.getD pos default) (unravel (r.cells.getD pos default).shape q)) :=
+  ⟨faces_ok ktol r hc hg, fun k hk => faces_assert ktol r hc hg k hk, fun pos c nodes h => cellHas_spec r pos c nodes h⟩
+
+/-- `CellsOK` holds after `generate_cell_numbers()`. -/
+example (ktol : ℚ) (r : Numbered) : CellsOK ktol (r.generateCellNumbers ktol) := cellsOK_generate ktol r
 
 /-! ## faces -/
 
